@@ -10,6 +10,7 @@ import (
 	"hash/crc32"
 	"strings"
 	"testing"
+	"time"
 
 	"pgregory.net/rapid"
 )
@@ -25,6 +26,7 @@ type c19Entry struct {
 	Method int    `json:"method"` // 0 store, 8 deflate
 	Stream bool   `json:"stream"` // true: data descriptor; false: sizes in the local header
 	Body   vfB    `json:"body"`
+	Mod    bool   `json:"mod,omitempty"` // modification time set: the writer adds an extended-timestamp extra field
 }
 
 type c19Case struct {
@@ -44,7 +46,11 @@ func c19Build(es []c19Entry) ([]byte, error) {
 			e.Method = 0
 		}
 		if e.Stream {
-			fw, err := w.CreateHeader(&azip.FileHeader{Name: e.Name, Method: uint16(e.Method)})
+			fh := &azip.FileHeader{Name: e.Name, Method: uint16(e.Method)}
+			if e.Mod {
+				fh.Modified = time.Date(2024, 2, 29, 12, 30, 0, 0, time.UTC)
+			}
+			fw, err := w.CreateHeader(fh)
 			if err != nil {
 				return nil, err
 			}
@@ -65,6 +71,9 @@ func c19Build(es []c19Entry) ([]byte, error) {
 		}
 		fh := &azip.FileHeader{Name: e.Name, Method: uint16(e.Method), CRC32: crc32.ChecksumIEEE(body),
 			CompressedSize64: uint64(len(comp)), UncompressedSize64: uint64(len(body))}
+		if e.Mod {
+			fh.Modified = time.Date(2024, 2, 29, 12, 30, 0, 0, time.UTC)
+		}
 		rw, err := w.CreateRaw(fh)
 		if err != nil {
 			return nil, err
@@ -124,7 +133,8 @@ func c19GenBody(t *rapid.T) vfB {
 }
 
 func c19GenEntry(t *rapid.T, name string) c19Entry {
-	return c19Entry{Name: name, Method: rapid.SampledFrom([]int{0, 8, 8}).Draw(t, "method"), Stream: rapid.Bool().Draw(t, "stream"), Body: c19GenBody(t)}
+	return c19Entry{Name: name, Method: rapid.SampledFrom([]int{0, 8, 8}).Draw(t, "method"), Stream: rapid.Bool().Draw(t, "stream"), Body: c19GenBody(t),
+		Mod: rapid.IntRange(0, 3).Draw(t, "mod") == 0}
 }
 
 func c19Gen(t *rapid.T) c19Case {
